@@ -2,7 +2,7 @@
 //! humphrey_ws::websocket_handler + WebsocketStream::{recv, recv_nonblocking, send}, Drop) driven over
 //! loopback by a reference RFC 6455 client written here.
 //!
-//!   wsendpoint replay <conc>                    stdin: one behaviour per line as printed by TLC (MC_WsEndpoint!GenRec)
+//!   wsendpoint replay <conc> [<mod> <rem>]      stdin: one behaviour per line as printed by TLC (MC_WsEndpoint!GenRec)
 //!   wsendpoint random <n> <maxframes> <maxpay> <conc>
 //!
 //! Every connection produces one JSON line
@@ -156,6 +156,7 @@ struct Case {
     end: End,
     exp: Option<Value>,
     gap_us: u64,
+    full: bool, // print the event log, the observation and the script
 }
 
 fn opcode(op: &str) -> u8 {
@@ -666,19 +667,16 @@ fn run_case(case: &Case, srv: &Server, rng: &mut Rng) -> Value {
         let fd = sock.as_raw_fd();
         let t0 = Instant::now();
         while outq(fd) > 0 && t0.elapsed() < Duration::from_secs(10) && !ctx.done.load(SeqCst) {
-            thread::sleep(Duration::from_micros(200));
+            thread::sleep(Duration::from_micros(100));
         }
         ctx.stop.store(true, SeqCst);
-        // wait for the end of the server's stream (a hang is ended by the read timeout of the reader)
-        let t1 = Instant::now();
-        while !reader.is_finished() && t1.elapsed() < Duration::from_secs(15) {
-            thread::sleep(Duration::from_micros(300));
-        }
-        if !reader.is_finished() {
-            mismatch.push("the connection did not end within 15 s".into());
+        // wait for the end of the server's stream; a hang is ended by the reader's 20 s read timeout
+        // (the model says every generated connection ends: the handler returns and the socket closes)
+        let (fr, e) = reader.join().unwrap_or((vec![], "reset"));
+        if e == "timeout" {
+            mismatch.push("the connection did not end within 20 s".into());
             let _ = sock.shutdown(Shutdown::Both);
         }
-        let (fr, e) = reader.join().unwrap_or((vec![], "reset"));
         frames_out = fr;
         end = e;
         let t2 = Instant::now();
@@ -742,8 +740,27 @@ fn run_case(case: &Case, srv: &Server, rng: &mut Rng) -> Value {
             mismatch.push(format!("the server's stream ended with {}", end));
         }
     }
-    json!({"c": case.idx, "mode": if case.nb { "nonblocking" } else { "blocking" }, "echo": case.echo, "ev": ev,
-           "obs": obs, "mismatch": mismatch, "nones": ctx.nones.load(SeqCst)})
+    // a receive call was entered while only the first bytes of a frame were visible in the socket
+    let partial = ev.iter().any(|e| e["e"] == "call" && (1..6).contains(&e["avail"].as_u64().unwrap_or(0)));
+    let full = case.full || !mismatch.is_empty();
+    let mut line = json!({"c": case.idx, "mode": if case.nb { "nonblocking" } else { "blocking" }, "echo": case.echo,
+           "mismatch": mismatch, "nones": ctx.nones.load(SeqCst), "partial": partial, "events": ev.len(),
+           "hs": {"haskey": case.key.is_some(), "key": case.key.clone().unwrap_or_default(), "status": obs["status"],
+                  "accept": obs["accept"], "want": obs["want"]}});
+    if full {
+        line["ev"] = json!(ev);
+        line["obs"] = obs;
+        line["case"] = case_json(case);
+    }
+    line
+}
+
+/// the script of a connection in the input format of `replay` (keys are concrete strings here)
+fn case_json(c: &Case) -> Value {
+    json!({"c": c.idx, "key": c.key.clone().unwrap_or_else(|| "<nokey>".into()),
+           "mode": if c.nb { "nonblocking" } else { "blocking" }, "echo": c.echo,
+           "frames": c.frames.iter().map(|f| json!({"op": f.op, "fin": f.fin, "pay": rle_json(&expand(&f.pay)), "cuts": f.cuts})).collect::<Vec<_>>(),
+           "sent": c.sent, "end": match c.end { End::Close => "close", End::Shut => "shut", End::Stay => "stay" }, "gap": c.gap_us})
 }
 
 /// equality of a predicted and an observed server frame; the payload of a (well-formed) Close reply is
@@ -779,6 +796,7 @@ fn parse_case(idx: usize, v: &Value) -> Case {
         },
         exp: if v["exp"].is_object() { Some(v["exp"].clone()) } else { None },
         gap_us: v["gap"].as_u64().unwrap_or(700),
+        full: true,
     }
 }
 
@@ -937,7 +955,9 @@ fn rand_case(idx: usize, rng: &mut Rng, maxframes: usize, maxpay: usize) -> Case
     let ends_with_message = frames.last().map(|f| f.fin && matches!(f.op.as_str(), "text" | "binary" | "cont")).unwrap_or(true);
     let end = if closed {
         End::Close
-    } else if (nb || ends_with_message) && rng.chance(1, 2) {
+    } else if (if nb { open == 0 } else { ends_with_message }) && rng.chance(1, 2) {
+        // the client stays connected and the handler returns by itself: only where the model says it can
+        // (a blocking receive, or a message left open, would wait for more frames forever)
         End::Stay
     } else {
         // abrupt end of the client's stream, sometimes in the middle of the last frame (at one of its cuts)
@@ -952,7 +972,7 @@ fn rand_case(idx: usize, rng: &mut Rng, maxframes: usize, maxpay: usize) -> Case
         End::Shut
     };
     Case { idx, key: rand_key(rng), nb, echo: rng.chance(1, 2), frames, sent, end, exp: None,
-           gap_us: *rng.pick(&[0u64, 0, 200, 700, 1500]) }
+           gap_us: *rng.pick(&[0u64, 0, 200, 700, 1500]), full: true }
 }
 
 fn main() {
@@ -966,10 +986,15 @@ fn main() {
     match a.get(1).map(|s| s.as_str()) {
         Some("replay") => {
             let conc: usize = a.get(2).and_then(|x| x.parse().ok()).unwrap_or(16);
+            // the event log is printed for connections with c % modulus == remainder (and for every mismatch)
+            let modulus: usize = a.get(3).and_then(|x| x.parse().ok()).unwrap_or(1).max(1);
+            let rem: usize = a.get(4).and_then(|x| x.parse().ok()).unwrap_or(0);
             let mut cases = vec![];
             for (i, line) in stdin_lines().enumerate() {
                 if let Ok(v) = serde_json::from_str::<Value>(&line) {
-                    cases.push(parse_case(v["c"].as_u64().map(|x| x as usize).unwrap_or(i + 1), &v));
+                    let mut c = parse_case(v["c"].as_u64().map(|x| x as usize).unwrap_or(i + 1), &v);
+                    c.full = c.idx % modulus == rem % modulus;
+                    cases.push(c);
                 }
             }
             run_all(cases, conc);
